@@ -12,6 +12,21 @@ lower -w is a subsequence of the one at a higher -w and identical across -H / -T
 lines are present at every level. Correspondence: `Diag.run` predicts the printed (level, place)
 sequence, buckets, exit and output of every setting from the dry-run event list; `Diag.render`
 predicts every rendered path field from the unformatted one.
+
+Site-directed stage (props/c16sites.py): a corpus of constructs, one or more per diagnostic call
+site of rattr (the sites are enumerated from the source, Tie A `Generated.C16.diagSites`, classified
+in `DiagSites.classOf`; coverage reached/total is reported in the evidence), each placed in the
+target AND in a followed import six components below the project root that itself imports a deeper
+module (calls into siblings, classes, the next import level, stdlib, ignored / excluded / missing
+callees). Whole-corpus programs go through the CLI oracle above; single-construct programs (strict
+mode: only the first weighted error is visible) and every fatal construct are judged in-process and
+re-judged through the CLI when they deviate. When the reader table has a NEW entry (a function that
+newly reads a verbosity option), every construct is traced (sys.setprofile) and those that execute
+that function are searched exhaustively (alone, both places, both project shapes, strict and
+threshold settings); a failing whole-corpus program is shrunk to the constructs that show it.
+
+Whole-main stage (props/c16main.py): the Lean model `MainRun` (= `Pipeline` ∘ `Diag`) predicts, from
+a module's AST alone, stdout / exit / buckets / printed lines of `main` under every setting.
 """
 from __future__ import annotations
 
@@ -24,6 +39,7 @@ import common
 import impl  # noqa: F401
 import diag_common as dc
 from props import c15 as c15mod
+from props import c16sites as cs
 
 PID = "C16"
 TABLES = ["C15", "C16"]
@@ -32,15 +48,140 @@ SETTINGS = [dict(warn=w, H=h, T=t) for w in dc.WARN for h in (False, True) for t
 RANK = {w: i for i, w in enumerate(dc.WARN)}
 
 
+class InprocPool:
+    """Forked worker processes for the in-process runs of the real `main` (each run is independent:
+    fresh Config, caches cleared). Created before any thread exists."""
+
+    def __init__(self, n=8):
+        import multiprocessing as mp
+        self.pool = mp.get_context("fork").Pool(n)
+
+    def run(self, jobs):
+        return self.pool.map_async(_inproc_job, jobs, chunksize=1).get(timeout=3000)
+
+    def close(self):
+        self.pool.terminate()
+
+
+def _inproc_job(job):
+    project, argv, record_sites = job
+    return dc.run_inprocess(project, argv, record_sites=record_sites)
+
+
+INPROC = None
+
+
+def inproc_many(jobs):
+    """jobs: [(project, argv, record_sites)] -> results of dc.run_inprocess, in order."""
+    if INPROC is None or len(jobs) < 2:
+        return [_inproc_job(j) for j in jobs]
+    return INPROC.run(jobs)
+
+
+def argv_of(project, cfg, output="results"):
+    """argv of one run: the project's own fixed options (site projects: -x / -f) + the setting."""
+    return list(getattr(project, "argv_pre", [])) + dc.argv_for(cfg, project.target_arg, output)
+
+
+def describe(project, prog):
+    return project.describe() if hasattr(project, "describe") else prog
+
+
+DUP_RESULTS_RE = None
+
+
+def has_duplicated_rattr_results(project):
+    """Syntactic: some def in the target / helper carries two `@rattr_results(...)` decorators."""
+    import re
+    global DUP_RESULTS_RE
+    if DUP_RESULTS_RE is None:
+        DUP_RESULTS_RE = re.compile(r"(?:^@rattr_results\([^\n]*\)\n){2,}(?:async\s+)?def ", re.M)
+    return any(DUP_RESULTS_RE.search(f.read_text()) for f in (project.target_path, project.helper_path))
+
+
+def stdout_is_only_diagnostic_lines(stdouts):
+    """Every stdout consists of diagnostic lines only and they agree up to the path field."""
+    seen = set()
+    for o in stdouts:
+        lines, junk = dc.parse_stderr(o)
+        if junk or not lines:
+            return False
+        seen.add(tuple(masked(lines)))
+    return len(seen) == 1
+
+
+def refine(sig, project, stdouts):
+    """Known-finding classes are named from syntactic conditions of the INPUT; the shape of the
+    output only narrows them (so that another defect on such an input keeps its own signature)."""
+    if has_duplicated_rattr_results(project):
+        if sig in ("stdout-depends-on:-H", "stdout-depends-on:-T", "stdout-depends-on:-H-T", "stdout-depends-on:combination") \
+                and stdout_is_only_diagnostic_lines(stdouts):
+            return "diagnostic-on-stdout:duplicated-rattr_results-annotation:stdout-depends-on-path-format"
+        if sig == "error-or-fatal-diagnostic-not-printed-at:-w-all" and stdout_is_only_diagnostic_lines(stdouts):
+            return "diagnostic-on-stdout:duplicated-rattr_results-annotation:fatal-not-on-stderr"
+    return sig
+
+
+class SiteCoverage:
+    """Which diagnostic call sites the runs of this check really reached (from the tap's call-site
+    record), by place; and the model's class table (`DiagSites.classOf`) checked on every event."""
+
+    def __init__(self, model):
+        self.tables = model.batch([("c16_tables", {})])[0]
+        self.index = cs.site_index()
+        self.cls = {}
+        for row in self.tables.get("sites", []):
+            f, fn, lvl, k = row["site"]
+            self.cls[f"{f}::{fn}::{lvl}#{k}"] = row
+        self.reached = {}          # site id -> set of places
+        self.by_construct = {}     # site id -> set of construct ids (single-construct programs only)
+        self.bad = []
+
+    def note(self, events, construct=None):
+        for e in events:
+            site = e.get("site")
+            if site is None:
+                continue
+            sid = self.index.get((site[0], site[1]))
+            if sid is None:
+                if "/rattr/" in site[0] and not site[0].endswith("rattr/error/error.py"):
+                    self.bad.append({"what": "diagnostic from a call site the scan does not know", "site": list(site)})
+                continue
+            self.reached.setdefault(sid, set()).add(e["where"] or "none")
+            if construct is not None:
+                self.by_construct.setdefault(sid, set()).add(construct)
+            row = self.cls.get(sid)
+            if row is not None and row["class"] is not None and (e["where"] or "simplification") not in row["wheres"]:
+                self.bad.append({"what": "place of a diagnostic outside its site class", "site": sid, "class": row["class"],
+                                 "where": e["where"], "message": e["message"][:120]})
+
+    def report(self):
+        reach = [r for r in self.tables.get("sites", []) if r["programReachable"]]
+        ids = [f"{r['site'][0]}::{r['site'][1]}::{r['site'][2]}#{r['site'][3]}" for r in reach]
+        got = [i for i in ids if i in self.reached]
+        ana = [i for i, r in zip(ids, reach) if r["class"] == "analysis"]
+        return {
+            "call_sites_in_source": len(self.tables.get("sites", [])),
+            "by_class": {c: sum(1 for r in self.tables.get("sites", []) if r["class"] == c)
+                         for c in sorted({str(r["class"]) for r in self.tables.get("sites", [])})},
+            "program_reachable": len(ids),
+            "reached": len(got),
+            "analysis_sites_reached_in_target": sum(1 for i in ana if "target" in self.reached.get(i, ())),
+            "analysis_sites_reached_in_followed_import": sum(1 for i in ana if "import" in self.reached.get(i, ())),
+            "analysis_sites": len(ana),
+            "unreached": [i for i in ids if i not in self.reached],
+        }
+
+
 def skey(s):
     return f"-w {s['warn']}{' -H' if s['H'] else ''}{' -T' if s['T'] else ''}"
 
 
-def differing_flags(values):
-    """values: list parallel to SETTINGS. Flags f such that two settings differing only in f have
-    different values; falls back to 'combination' when only multi-flag changes differ."""
+def differing_flags(values, settings=None):
+    """values: list parallel to SETTINGS (or to `settings`). Flags f such that two settings differing
+    only in f have different values; falls back to 'combination' when only multi-flag changes differ."""
     flags = set()
-    for (i, a), (j, b) in itertools.combinations(enumerate(SETTINGS), 2):
+    for (i, a), (j, b) in itertools.combinations(enumerate(SETTINGS if settings is None else settings), 2):
         d = [k for k in ("warn", "H", "T") if a[k] != b[k]]
         if len(d) == 1 and values[i] != values[j]:
             flags.add({"warn": "-w", "H": "-H", "T": "-T"}[d[0]])
@@ -76,9 +217,41 @@ def full_cfg(a, s):
     return dict(strict=a["strict"], threshold=a["threshold"], warn=s["warn"], H=s["H"], T=s["T"], via_toml=False)
 
 
-def prepare(res, project, prog, rng, tier):
-    dry_cfg = dict(strict=False, threshold=0, warn="all", H=False, T=False)
-    dry = dc.run_inprocess(project, dc.argv_for(dry_cfg, project.target_arg, "results"))
+def replaced_fatals(events):
+    """Indices of fatal events that are immediately followed by another fatal raised at the same
+    place: the first one's SystemExit was caught by its caller, its line went to a captured stream
+    and is dropped, and the caller raises its own fatal instead (rattr_results parsing: 'unable to
+    evaluate …' -> 'you are likely missing a comma'). Weight 0, never visible, the run still ends
+    with a fatal at that place: for `Diag.run` the pair is the second fatal alone."""
+    return {i for i in range(len(events) - 1)
+            if events[i]["level"] == "fatal" and events[i + 1]["level"] == "fatal"
+            and events[i]["where"] == events[i + 1]["where"] and events[i]["badness"] == 0}
+
+
+def visible(events):
+    drop = replaced_fatals(events)
+    return [e for i, e in enumerate(events) if i not in drop]
+
+
+def printed_of(ip):
+    """(level, place) of the lines the run handed to `__log`, minus those of replaced fatals."""
+    drop = replaced_fatals(ip["events"])
+    return [[p["level"], ip["events"][p["event"]]["where"] if p["event"] is not None else None]
+            for p in ip["printed"] if p["level"] != "rattr" and p["event"] not in drop]
+
+
+DRY_CFG = dict(strict=False, threshold=0, warn="all", H=False, T=False)
+
+
+def dry_runs(projects, record_sites=True):
+    return inproc_many([(p, argv_of(p, DRY_CFG, "results"), record_sites) for p in projects])
+
+
+def prepare(res, project, prog, rng, tier, cfgs=None, cov=None, construct=None, dry=None):
+    if dry is None:
+        dry = dc.run_inprocess(project, argv_of(project, DRY_CFG, "results"), record_sites=cov is not None)
+    if cov is not None:
+        cov.note(dry["events"], construct)
     if dry["crash"] is not None:
         # no event list for the model; the 16 settings are still compared on exit / stdout / crash
         res.count("dry-run-crash:" + str(dry["crash"][1]))
@@ -89,16 +262,30 @@ def prepare(res, project, prog, rng, tier):
         res.skipped_outside_fragment += 1
         res.count("skipped:diagnostic-outside-analysis-stages")
         return []
-    evs = dc.model_events(dry["events"])
+    evs = dc.model_events(visible(dry["events"]))
+    if len(evs) != len(dc.model_events(dry["events"])):
+        res.count("fatal-replaced-by-its-caller (modelled as the second fatal alone)")
+    # any OTHER diagnostic after a fatal (a SystemExit caught by a caller that then goes on) is not
+    # something `Diag.run` describes: judged by the oracle only
+    caught_exit = any(e["level"] == "fatal" for e in visible(dry["events"])[:-1])
+    if caught_exit:
+        res.count("model-skipped:diagnostics-after-a-caught-fatal")
+    no_model = caught_exit
     total = dry["buckets"][0] + dry["buckets"][2]
     recs = []
-    cfgs = analysis_cfgs(total, rng, tier)
+    if cfgs is not None:
+        cfgs = [dict(strict=False, threshold=max(total + c["rel"], 0)) if "rel" in c else c for c in cfgs]
+        cfgs = [c for i, c in enumerate(cfgs) if c not in cfgs[:i]]
+    else:
+        cfgs = analysis_cfgs(total, rng, tier)
     if getattr(project, "force_threshold_total", False) and total > 0:
         cfgs = [dict(strict=False, threshold=total)] + (cfgs if tier != "quick" else [])
     for a in cfgs:
         stats_ix = [4 * i + rng.randrange(4) for i in range(4)]   # one -o stats run per warning level
+        if tier == "quick":
+            stats_ix = sorted(rng.sample(stats_ix, 2))            # (quick: two of the four levels)
         recs.append({"project": project, "prog": prog, "evs": evs, "a": a, "stats_ix": stats_ix,
-                     "dry_events": dry["events"]})
+                     "dry_events": dry["events"], "caught_exit": caught_exit, "no_model": no_model})
     return recs
 
 
@@ -113,22 +300,22 @@ def crash_type(r):
 
 def jobs_of(rec):
     p = rec["project"]
-    j = [(p, dc.argv_for(full_cfg(rec["a"], s), p.target_arg, "results")) for s in SETTINGS]
-    j += [(p, dc.argv_for(full_cfg(rec["a"], SETTINGS[i]), p.target_arg, "stats")) for i in rec["stats_ix"]]
+    j = [(p, argv_of(p, full_cfg(rec["a"], s), "results")) for s in SETTINGS]
+    j += [(p, argv_of(p, full_cfg(rec["a"], SETTINGS[i]), "stats")) for i in rec["stats_ix"]]
     return j
 
 
-def judge(res, model, rec, cli):
+def judge(res, model, rec, cli, cov=None):
     project, prog, evs, a = rec["project"], rec["prog"], rec["evs"], rec["a"]
-    case = {"program": prog, "layout": project.layout, "analysis_cfg": a, "events": evs}
+    case = {"program": describe(project, prog), "layout": project.layout, "analysis_cfg": a, "events": evs}
     runs, stats_runs = cli[:16], cli[16:]
     res.evaluations += 16
     if evs:
-        res.nontrivial.add(common.digest({"p": prog, "a": a, "l": project.layout}))
+        res.nontrivial.add(common.digest({"p": describe(project, prog), "a": a, "l": project.layout}))
     res.count(f"layout:{project.layout}")
 
     def viol(sig, **kw):
-        res.violations.append({"signature": sig, "case": case, **kw})
+        res.violations.append({"signature": refine(sig, project, [r["stdout"] for r in runs]), "case": case, **kw})
 
     # ---------------- property oracle, on real outputs only (1): outcome of the 16 runs
     crashes = [crashed(r) for r in runs]
@@ -152,7 +339,10 @@ def judge(res, model, rec, cli):
     if evs is None:
         res.internal_errors.append({"what": "in-process dry run crashed but no CLI run did", "case": case})
         return
-    ips = [dc.run_inprocess(project, dc.argv_for(full_cfg(a, s), project.target_arg, "results")) for s in SETTINGS]
+    ips = inproc_many([(project, argv_of(project, full_cfg(a, s), "results"), cov is not None) for s in SETTINGS])
+    if cov is not None:
+        for ip in ips:
+            cov.note(ip["events"])
     if any(ip["crash"] is not None for ip in ips):
         res.internal_errors.append({"what": "in-process run crashed but no CLI run did", "case": case,
                                     "crash": [ip["crash"] for ip in ips if ip["crash"] is not None][:1]})
@@ -203,9 +393,12 @@ def judge(res, model, rec, cli):
             viol(f"error-or-fatal-line-missing-at:-w-{s['warn']}:{'+'.join(sorted(set(missing))) or 'reordered'}",
                  setting=skey(s), lines=errs, lines_at_all=errs_all)
             break
-    n_errfatal = sum(1 for e in ips[allix]["events"] if e["level"] in ("error", "fatal"))
-    if len(errs_all) != n_errfatal:
+    n_errfatal = sum(1 for e in visible(ips[allix]["events"]) if e["level"] in ("error", "fatal"))
+    if len(errs_all) != n_errfatal and not rec.get("caught_exit"):
         viol("error-or-fatal-diagnostic-not-printed-at:-w-all", printed=len(errs_all), raised=n_errfatal)
+    if rec.get("no_model"):
+        res.skipped_outside_fragment += 1
+        return
 
     # ---------------- correspondence: Lean model vs each setting
     reqs = [("diag_run", {"cfg": c15mod.model_cfg(full_cfg(a, s)), "events": evs}) for s in SETTINGS]
@@ -230,8 +423,7 @@ def judge(res, model, rec, cli):
         if "__error__" in mo:
             res.disagreements.append({"case": case, "setting": skey(s), "model": mo})
             continue
-        ip_printed = [[p["level"], ip["events"][p["event"]]["where"] if p["event"] is not None else None]
-                      for p in ip["printed"] if p["level"] != "rattr"]
+        ip_printed = printed_of(ip)
         mm = {"exit": mo["exit"], "output": mo["output"], "buckets": mo["buckets"], "printed": mo["printed"],
               "levels": [p[0] for p in mo["printed"]], "cli_exit": mo["exit"], "cli_output": mo["output"]}
         ii = {"exit": ip["exit"], "output": bool(ip["stdout"].strip()), "buckets": ip["buckets"], "printed": ip_printed,
@@ -253,18 +445,360 @@ def judge(res, model, rec, cli):
         if out != real:
             res.disagreements.append({"case": case, "setting": sk, "fields": ["render"], "impl": real, "model": out,
                                       "unformatted": plain})
-    res.sample({"case": {"program": prog, "analysis_cfg": a},
+    res.sample({"case": {"program": prog if prog is not None else getattr(project, "tag", "site program"), "analysis_cfg": a},
                 "impl": {"exit": runs[0]["exit"], "buckets": buckets[0],
                          "stderr": {skey(s): [f"{l['level']}: {l['file']}" for l in r["lines"]][:4] for s, r in list(zip(SETTINGS, runs))[12:16]}}})
+
+
+# ------------------------------------------------------------------------------------------------
+# in-process judge (no subprocess): the same oracle on the tapped runs of the real `main`
+# ------------------------------------------------------------------------------------------------
+
+def judge_light(res, model, rec, cov=None, collect=None, settings=None):
+    """All 16 settings in-process: exit status, stdout, buckets, event stream, printed lines
+    (captured stderr), error / fatal lines; `Diag.run` vs every setting. Violations go to `collect`
+    (default res.violations) with the SAME signatures as the CLI judge (the property aspects are the
+    same); the caller confirms them through the real CLI."""
+    project, prog, evs, a = rec["project"], rec["prog"], rec["evs"], rec["a"]
+    case = {"program": describe(project, prog), "layout": project.layout, "analysis_cfg": a, "events": evs}
+    out = res.violations if collect is None else collect
+    SET = SETTINGS if settings is None else settings
+    differing = lambda values: differing_flags(values, SET)  # noqa: E731
+
+    ips = inproc_many([(project, argv_of(project, full_cfg(a, s), "results"), cov is not None) for s in SET])
+
+    def viol(sig, **kw):
+        out.append({"signature": refine(sig, project, [ip["stdout"] for ip in ips]), "case": case, "observed": "in-process", **kw})
+
+    res.evaluations += len(SET)
+    if cov is not None:
+        for ip in ips:
+            cov.note(ip["events"])
+    crashes = [ip["crash"] is not None for ip in ips]
+    f = differing(crashes)
+    if f:
+        kinds = sorted({ip["crash"][1] for ip in ips if ip["crash"] is not None})
+        viol(f"traceback-depends-on:{f}:{'+'.join(kinds)}",
+             outcome={skey(s): ("traceback " + ip["crash"][1]) if ip["crash"] else f"exit {ip['exit']}" for s, ip in zip(SET, ips)})
+    f = differing([ip["stdout"] for ip in ips])
+    if f:
+        viol(f"stdout-depends-on:{f}", stdout_digests={skey(s): common.digest(ip["stdout"]) for s, ip in zip(SET, ips)})
+    f = differing([ip["exit"] for ip in ips])
+    if f:
+        viol(f"exit-status-depends-on:{f}", exits={skey(s): ip["exit"] for s, ip in zip(SET, ips)})
+    if any(crashes):
+        res.skipped_outside_fragment += 1
+        res.count("skipped:traceback-at-" + ("every-setting" if all(crashes) else "some-settings"))
+        return ips
+    if evs is None:
+        res.internal_errors.append({"what": "in-process dry run crashed but the 16 runs did not", "case": case})
+        return ips
+    buckets = [ip["buckets"] for ip in ips]
+    f = differing(buckets)
+    if f:
+        lo = [skey(s) for s, b in zip(SET, buckets) if sum(b) < max(sum(x) for x in buckets)]
+        viol(f"badness-depends-on:{f}", buckets={skey(s): b for s, b in zip(SET, buckets)}, lower_at=lo)
+    streams = [[(e["level"], e["badness"], e["where"], e["message"]) for e in ip["events"]] for ip in ips]
+    f = differing(streams)
+    if f:
+        viol(f"diagnostic-events-depend-on:{f}", n_events={skey(s): len(x) for s, x in zip(SET, streams)})
+    seqs = [masked(ip["lines"]) for ip in ips]
+    for (i, s1), (j, s2) in itertools.permutations(list(enumerate(SET)), 2):
+        if RANK[s1["warn"]] <= RANK[s2["warn"]] and not dc.is_subsequence(seqs[i], seqs[j]):
+            if s1["warn"] == s2["warn"]:
+                which = "".join(sorted({"-H" if s1["H"] != s2["H"] else "", "-T" if s1["T"] != s2["T"] else ""}))
+                viol(f"stderr-lines-depend-on:{which}", a=skey(s1), b=skey(s2), lines_a=seqs[i][:12], lines_b=seqs[j][:12])
+            else:
+                viol(f"stderr-not-subsequence:-w-{s1['warn']}-vs-{s2['warn']}", a=skey(s1), b=skey(s2),
+                     lines_a=seqs[i][:12], lines_b=seqs[j][:12])
+            break
+    allix = SET.index(dict(warn="all", H=False, T=False))
+    errs_all = [x for x in seqs[allix] if x[0] in ("error", "fatal")]
+    for s, q in zip(SET, seqs):
+        errs = [x for x in q if x[0] in ("error", "fatal")]
+        if errs != errs_all:
+            missing = [x[0] for x in errs_all if x not in errs]
+            viol(f"error-or-fatal-line-missing-at:-w-{s['warn']}:{'+'.join(sorted(set(missing))) or 'reordered'}",
+                 setting=skey(s), lines=errs[:12], lines_at_all=errs_all[:12])
+            break
+    n_errfatal = sum(1 for e in visible(ips[allix]["events"]) if e["level"] in ("error", "fatal"))
+    if len(errs_all) != n_errfatal and not rec.get("caught_exit"):
+        viol("error-or-fatal-diagnostic-not-printed-at:-w-all", printed=len(errs_all), raised=n_errfatal)
+    if rec.get("no_model"):
+        res.skipped_outside_fragment += 1
+        return ips
+    # correspondence: Diag.run on the dry-run events vs every setting
+    mouts = model.batch([("diag_run", {"cfg": c15mod.model_cfg(full_cfg(a, s)), "events": evs}) for s in SET])
+    for s, mo, ip in zip(SET, mouts, ips):
+        if "__error__" in mo:
+            res.disagreements.append({"case": case, "setting": skey(s), "model": mo})
+            continue
+        ip_printed = printed_of(ip)
+        mm = {"exit": mo["exit"], "output": mo["output"], "buckets": mo["buckets"], "printed": mo["printed"]}
+        ii = {"exit": ip["exit"], "output": bool(ip["stdout"].strip()), "buckets": ip["buckets"], "printed": ip_printed}
+        diffs = [k for k in mm if mm[k] != ii[k]]
+        if diffs:
+            res.disagreements.append({"case": case, "setting": skey(s), "fields": diffs, "observed": "in-process",
+                                      "impl": {k: ii[k] for k in diffs}, "model": {k: mm[k] for k in diffs}})
+        real_err = [p for p in ip_printed if p[0] in ("error", "fatal")]
+        if real_err != mo["spec"]["errorLines"]:
+            viol(f"error-or-fatal-lines-differ-from-contract:-w-{s['warn']}", setting=skey(s), printed=real_err[:12],
+                 contract=mo["spec"]["errorLines"][:12])
+    res.count(f"light:analysis:{'strict' if a['strict'] else 'lax'}:thr={'0' if not a['threshold'] else 'n'}")
+    return ips
+
+
+# ------------------------------------------------------------------------------------------------
+# site-directed stage
+# ------------------------------------------------------------------------------------------------
+
+SINK_CFGS = [dict(rel=-1), dict(rel=0)]          # threshold = total - 1 (flips if badness drops), total (flips if it grows)
+SINGLE_CFGS = [dict(strict=True, threshold=0), dict(rel=-1), dict(rel=0)]
+
+
+class CliPool:
+    """CLI runs in background threads (the subprocesses run while this process does the in-process
+    runs)."""
+
+    def __init__(self, workers=16):
+        from concurrent.futures import ThreadPoolExecutor
+        self.ex = ThreadPoolExecutor(max_workers=workers)
+
+    def submit(self, recs):
+        return [self.ex.submit(dc.run_cli, *j) for r in recs for j in jobs_of(r)]
+
+    def close(self):
+        self.ex.shutdown(wait=False, cancel_futures=True)
+
+
+def full_judge(res, model, recs, cov=None, futures=None):
+    cli = [f.result() for f in futures] if futures is not None else dc.run_cli_many([j for r in recs for j in jobs_of(r)])
+    k = 0
+    for r in recs:
+        n = 16 + len(r["stats_ix"])
+        try:
+            judge(res, model, r, cli[k:k + n], cov=cov)
+        except Exception as exc:
+            res.internal_errors.append({"what": f"harness exception {type(exc).__name__}: {exc}", "program": describe(r["project"], r["prog"])})
+        k += n
+
+
+FEW = [dict(warn="none", H=True, T=True), dict(warn="local", H=False, T=True), dict(warn="default", H=True, T=False),
+       dict(warn="all", H=False, T=False)]
+
+
+def light_judge_all(res, model, recs, cov=None):
+    """In-process judge of every rec -> [(rec, its violations)] for those that have any."""
+    suspicious = []
+    for r in recs:
+        mine = []
+        try:
+            judge_light(res, model, r, cov=cov, collect=mine, settings=r.get("settings"))
+        except Exception as exc:
+            res.internal_errors.append({"what": f"harness exception {type(exc).__name__}: {exc}", "program": describe(r["project"], r["prog"])})
+            continue
+        if mine:
+            suspicious.append((r, mine))
+    return suspicious
+
+
+def confirm(res, model, suspicious, cov=None, max_confirm=4):
+    """What the in-process judge reported is re-judged through the real CLI (at most `max_confirm`
+    programs; the CLI judge's violations are the ones reported). An in-process violation of a kind
+    no CLI run confirmed is kept, marked."""
+    if suspicious:
+        # known-finding inputs first (their signature must be the CLI's at every seed), then small programs
+        suspicious.sort(key=lambda rm: (not has_duplicated_rattr_results(rm[0]["project"]),
+                                        len(describe(rm[0]["project"], rm[0]["prog"]).get("site_items", ()))))
+        confirmed_kinds = set()
+        for r, mine in suspicious[:max_confirm]:
+            before = len(res.violations)
+            full_judge(res, model, [r], cov=cov)
+            got = res.violations[before:]
+            if got:
+                confirmed_kinds |= {v["signature"].split(":")[0] for v in got}
+            else:
+                res.violations.extend({**v, "signature": v["signature"] + ":in-process-only"} for v in mine)
+        for r, mine in suspicious[max_confirm:]:
+            # not re-run (bounded work): reported as observed, with the in-process signature
+            res.violations.extend(v if v["signature"].split(":")[0] in confirmed_kinds
+                                  else {**v, "signature": v["signature"] + ":in-process-only"} for v in mine)
+    return bool(suspicious)
+
+
+def shrink(res, model, base, tag, project, a_kind, signatures, rng):
+    """Halve the construct list of a failing site program while some construct subset still shows
+    one of `signatures` (in-process); -> smallest item list found."""
+    items = list(project.items)
+    n = 0
+
+    def fails(sub):
+        nonlocal n
+        n += 1
+        p = cs.SiteProject(base / f"{tag}-s{n}", sub, target_in_root=project.target_in_root,
+                           call_style=project.call_style, follow=project.follow)
+        scratch = common.Result(PID)
+        recs = prepare(scratch, p, None, rng, "quick", cfgs=[a_kind])
+        got = []
+        for r in recs:
+            judge_light(scratch, model, r, collect=got)
+        return any(v["signature"] in signatures for v in got)
+
+    while len(items) > 1 and n < 40:
+        half = len(items) // 2
+        first, second = items[:half], items[half:]
+        if fails(first):
+            items = first
+        elif fails(second):
+            items = second
+        else:
+            break
+    return items
+
+
+def site_prepare(res, base, rng, tier, cov, new_readers):
+    """Programs from the construct corpus (props/c16sites.py): -> (heavy recs, light recs, #programs)."""
+    quick = tier == "quick"
+    programs = []      # (tag, kwargs of SiteProject, cfg kinds, heavy)
+
+    def add(tag, items, cfgs, heavy, **kw):
+        programs.append((tag, items, cfgs, heavy, kw))
+
+    # (1) everything at once, in the target / in the deep followed import / mixed with the sibling
+    #     project shape (target inside the root, module-qualified calls, imports not followed)
+    add("sink-target", cs.sink_items(lambda c: "target"), SINK_CFGS, True)
+    add("sink-import", cs.sink_items(lambda c: "import"), SINK_CFGS, True)
+    mixed_kw = dict(target_in_root=True, call_style=rng.choice(["name", "module"]))
+    add("sink-mixed", cs.sink_items(lambda c: rng.choice(["target", "import"]), target_in_root=True),
+        [rng.choice(SINK_CFGS)], True, **mixed_kw)
+    add("sink-nofollow", cs.sink_items(lambda c: rng.choice(["target", "import"])), [dict(rel=0)], False, follow=0)
+    # (2) one construct per program (strict: the first weighted error ends the run, so a swallowed
+    #     error is only visible when it is the first); fatal constructs always alone
+    singles = [c for c in cs.CORPUS if not c["fatal"] and not c["site"].startswith("(no diagnostic")]
+    fatals = [c for c in cs.CORPUS if c["fatal"]]
+    rng.shuffle(singles)
+    rng.shuffle(fatals)
+    n_single, n_fatal = (6, 5) if quick else (len(singles), len(fatals))
+    for c in singles[:n_single]:
+        for place in (["target", "import"] if not quick else [rng.choice(["target", "import"])]):
+            in_root = c["only"] == "target_in_root" or rng.random() < 0.3
+            if cs.usable(c, place, in_root):
+                add(f"single-{c['id']}-{place}", [("plain", place), (c["id"], place)],
+                    [rng.choice(SINGLE_CFGS)] if quick else SINGLE_CFGS, False, target_in_root=in_root)
+    for k, c in enumerate(fatals):
+        for place in (["target", "import"] if not quick else [rng.choice(["target", "import"])]):
+            in_root = c["only"] == "target_in_root" or rng.random() < 0.3
+            if not cs.usable(c, place, in_root):
+                place = "target"
+            pre = [(x["id"], place) for x in rng.sample(singles, 2) if cs.usable(x, place, in_root)]
+            add(f"fatal{'' if k < n_fatal else 'few'}-{c['id']}-{place}", pre + [(c["id"], place)], [dict(strict=False, threshold=0)], False, target_in_root=in_root)
+    # (3) directed: a function that newly reads a verbosity option -> every construct that executes it
+    directed = directed_programs(res, base, new_readers, rng) if new_readers else []
+    for tag, items, kw in directed:
+        add(tag, items, SINGLE_CFGS[:2], False, **kw)
+
+    heavy, light, built = [], [], []
+    for i, (tag, items, cfgs, is_heavy, kw) in enumerate(programs):
+        try:
+            project = cs.SiteProject(base / f"s{i}", items, **kw)
+            project.tag = tag
+            built.append((project, tag, items, cfgs, is_heavy))
+        except Exception as exc:
+            res.internal_errors.append({"what": f"harness exception {type(exc).__name__}: {exc}", "program": tag})
+    for (project, tag, items, cfgs, is_heavy), dry in zip(built, dry_runs([b[0] for b in built])):
+        try:
+            construct = items[-1][0] if tag.startswith(("single-", "fatal", "directed-")) else None
+            recs = prepare(res, project, None, rng, tier, cfgs=cfgs, cov=cov, construct=construct, dry=dry)
+        except Exception as exc:
+            res.internal_errors.append({"what": f"harness exception {type(exc).__name__}: {exc}", "program": tag})
+            continue
+        res.count("site-program:" + tag.split("-")[0])
+        if tag.startswith("fatalfew-"):
+            for r in recs:
+                r["settings"] = FEW      # every fatal construct in every run, a sample of them under all 16 settings
+        (heavy if is_heavy else light).extend(recs)
+    return heavy, light, len(programs)
+
+
+def site_judge(res, model, base, rng, tier, cov, heavy, heavy_futures, light_done):
+    n0 = len(res.violations)
+    full_judge(res, model, heavy, cov=cov, futures=heavy_futures)
+    failing = {}
+    for v in res.violations[n0:]:
+        failing.setdefault(id(v["case"]), (v["case"], set()))[1].add(v["signature"])
+    light_done()
+    # a failing sink is shrunk to the construct(s) that show it: the small program is reported first
+    if failing:
+        small = []
+        for case, sigs in list(failing.values())[:2]:
+            try:
+                d = case["program"]
+                a = case["analysis_cfg"]
+                proj = cs.SiteProject.from_description(base / f"shr{len(small)}", d)
+                # recover the relative threshold from the dry-run total of the failing program
+                total = sum(e["badness"] for e in case["events"] if e["where"] != "import")
+                kind = a if (a["strict"] or not a["threshold"]) else dict(rel=a["threshold"] - total)
+                items = shrink(res, model, base, f"shr{len(small)}", proj, kind, sigs, rng)
+                if len(items) < len(proj.items):
+                    p2 = cs.SiteProject(base / f"shrunk{len(small)}", items, target_in_root=proj.target_in_root,
+                                        call_style=proj.call_style, follow=proj.follow)
+                    small += prepare(res, p2, None, rng, tier, cfgs=[kind])
+            except Exception as exc:
+                res.internal_errors.append({"what": f"shrinking failed: {type(exc).__name__}: {exc}"})
+        if small:
+            n1 = len(res.violations)
+            full_judge(res, model, small)
+            shrunk = res.violations[n1:]
+            for v in shrunk:
+                v["shrunk_from"] = "a whole-corpus program"
+            res.violations[:] = shrunk + res.violations[:n1]
+
+
+def directed_programs(res, base, new_readers, rng):
+    """new_readers: [(file, qualified function)] not in `DiagSites.allowedReaders`. Trace every
+    construct alone (sys.setprofile) and return the programs that execute one of these functions:
+    the construct alone, in the target and in the deep import, both project shapes."""
+    want = {(f, fn) for f, fn in new_readers}
+    reaching = []
+    dry_cfg = dict(strict=False, threshold=0, warn="none", H=True, T=True)
+    for i, c in enumerate(cs.CORPUS):
+        in_root = c["only"] == "target_in_root"
+        try:
+            p = cs.SiteProject(base / f"trace{i}", [(c["id"], "target")], target_in_root=in_root)
+            seen = cs.traced_functions(p, argv_of(p, dry_cfg, "results"))
+        except Exception as exc:
+            res.internal_errors.append({"what": f"tracing failed: {type(exc).__name__}: {exc}", "construct": c["id"]})
+            continue
+        hit = {(f, fn.replace(".<locals>", "")) for f, fn in seen} & want
+        if hit:
+            reaching.append((c, sorted(hit)))
+    res.extra["directed_search"] = {
+        "new_readers": [list(r) for r in new_readers],
+        "constructs_reaching_them": {c["id"]: [f"{f}::{fn}" for f, fn in hit] for c, hit in reaching},
+        "corpus_size": len(cs.CORPUS),
+    }
+    out = []
+    if len(reaching) > 16:
+        res.extra["directed_search"]["note"] = f"{len(reaching)} constructs reach the new readers: 16 of them searched alone (the whole-corpus programs hold all)"
+        reaching = rng.sample(reaching, 16)
+    for c, _ in reaching:
+        for place in ("target", "import"):
+            for in_root in ((True,) if c["only"] == "target_in_root" else (False, True)):
+                if cs.usable(c, place, in_root):
+                    out.append((f"directed-{c['id']}-{place}{'-inroot' if in_root else ''}", [(c["id"], place)], dict(target_in_root=in_root)))
+    return out
 
 
 def run(tier, seed, build):
     res = common.Result(PID)
     res.rule = ("generated projects under a deep path inside a fake $HOME (target outside the project root, import in a deep "
                 "package) x all 16 settings of -w/-H/-T x strict/threshold settings drawn from {permissive, threshold=total, "
-                "threshold=total-1, strict}; non-trivial = distinct (program, strict/threshold) whose dry run emits >= 1 diagnostic")
+                "threshold=total-1, strict}; plus programs from a corpus of constructs written per diagnostic call site of rattr "
+                "(whole corpus in the target / in an import six components below the root that imports a deeper module / mixed; "
+                "single constructs under strict; fatal constructs), judged in-process and re-judged through the CLI; "
+                "non-trivial = distinct (program, strict/threshold) whose dry run emits >= 1 diagnostic")
     rng = random.Random(seed)
-    n = 16 if tier == "quick" else 150
+    n = 8 if tier == "quick" else 150
     fixed = [p for p in c15mod.fixed_programs() if p["fatal"] or len(p["target"]) + len(p["import"]) + len(p["simpl"]) > 1]
     progs = [(p, "deep") for p in fixed]
     # every path shape gets: diagnostics without any error (so -w decides whether anything is printed),
@@ -280,32 +814,86 @@ def run(tier, seed, build):
     for k in range(n):
         lay = (["deep"] + shapes)[k % (1 + len(shapes))] if k % 2 else "deep"
         progs.append((dc.gen_program(rng, fatal_rate=0.08, empty_rate=0.02), lay))
+    global INPROC
+    INPROC = InprocPool()           # forked before any thread is started
+    try:
+        return _run(res, tier, seed, rng, progs, shaped)
+    finally:
+        INPROC.close()
+        INPROC = None
+        dc.CLI_ENV_EXTRA = {}
+
+
+def warm_bytecode_cache(base):
+    """The repo under test is read-only and has no __pycache__: every CLI run would compile rattr
+    from source again (~40% of its time). One run fills a private bytecode cache (PYTHONPYCACHEPREFIX,
+    inside the scratch directory); all later CLI runs read it (they still never write)."""
+    import os
+    import subprocess
+    import sys
+    pyc = base / "pyc"
+    proj = dc.Project(base / "warm", {"target": ["undefined_name"], "import": ["plain"], "simpl": ["call_ok", "stdlib_call"], "fatal": None}, layout="flat")
+    env = {k: v for k, v in dc.cli_env(proj).items() if k != "PYTHONDONTWRITEBYTECODE"}
+    env["PYTHONPYCACHEPREFIX"] = str(pyc)
+    try:
+        subprocess.run([sys.executable, "-m", "rattr", "-o", "stats", proj.target_arg], cwd=str(proj.cwd), env=env,
+                       capture_output=True, text=True, timeout=120)
+        dc.CLI_ENV_EXTRA = {"PYTHONPYCACHEPREFIX": str(pyc)}
+    except Exception:  # noqa
+        dc.CLI_ENV_EXTRA = {}
+
+
+def _run(res, tier, seed, rng, progs, shaped):
     model = common.Model()
+    cov = SiteCoverage(model)
+    if "__error__" in cov.tables:
+        res.internal_errors.append({"what": "op c16_tables failed", "detail": cov.tables})
+        return res
+    new_readers = [tuple(r) for r in cov.tables["newReaders"]]
     with dc.scratch_dir("rattr-c16-") as base:
         base = base.resolve()
-        recs = []
+        warm_bytecode_cache(base)
+        recs, projects = [], []
         for i, (prog, lay) in enumerate(progs):
             project = dc.Project(base / f"p{i}", prog, layout=lay)
             project.force_threshold_total = lay != "deep" and prog is shaped[0]
+            projects.append(project)
+        for project, (prog, lay), dry in zip(projects, progs, dry_runs(projects)):
             try:
-                recs += prepare(res, project, prog, rng, tier)
+                recs += prepare(res, project, prog, rng, tier, cov=cov, dry=dry)
             except Exception as exc:
                 res.internal_errors.append({"what": f"harness exception {type(exc).__name__}: {exc}", "program": prog})
-        jobs = [j for r in recs for j in jobs_of(r)]
-        cli = dc.run_cli_many(jobs)
-        k = 0
-        for r in recs:
-            try:
-                judge(res, model, r, cli[k:k + 20])
-            except Exception as exc:
-                res.internal_errors.append({"what": f"harness exception {type(exc).__name__}: {exc}", "program": r["prog"]})
-            k += 20
-    res.extra["programs_generated"] = len(progs)
+        srng = random.Random(seed * 7919 + 17)
+        heavy, light, n_site = site_prepare(res, base, srng, tier, cov, new_readers)
+        pool = CliPool()
+        try:
+            fut_a, fut_h = pool.submit(recs), pool.submit(heavy)
+            suspicious = light_judge_all(res, model, light, cov=cov)      # in-process, while the CLI runs proceed
+            full_judge(res, model, recs, cov=cov, futures=fut_a)
+            site_judge(res, model, base, srng, tier, cov, heavy, fut_h, lambda: confirm(res, model, suspicious, cov=cov))
+        finally:
+            pool.close()
+    # the whole `main` as ONE Lean model (Pipeline ∘ Diag) against the real one, per setting
+    from props import c16main
+    try:
+        c16main.run_main_stage(res, model, random.Random(seed * 104729 + 5), 3 if tier == "quick" else 60, tier, inproc=inproc_many)
+    except Exception as exc:
+        res.internal_errors.append({"what": f"main-model stage: {type(exc).__name__}: {exc}"})
+    res.extra["programs_generated"] = len(progs) + n_site
+    res.extra["diagnostic_call_sites"] = cov.report()
+    for b in cov.bad[:5]:
+        res.disagreements.append({"fields": ["site-class"], **b})
     res.assumptions = [
         "static non-interference (theorem C16_readers over the regenerated verbosityReaders table) carries 'the analysis does not "
         "read these options'; the 16-settings runs sample it",
         "[interp] 'the lines printed' are compared with the path field masked (level, line, column, message)",
         "Diag.render fragment: the home directory occurs in a path only as a whole-component prefix",
+        "coverage of diagnostic call sites is measured on the call sites the tap saw (caller frame of the level function), "
+        "denominator = sites whose DiagSites class is program-reachable (analysis / simplification / gate)",
+        "whole-main stage (MainRun = Pipeline ∘ Diag): follow-imports 0, the pipeline model's fragment; the model gets the module's "
+        "AST encoding and location facts only, never an event list of the implementation",
+        "a construct whose unresolved relative import is an uncaught exception (imported module, target outside the search "
+        "path) is left to C07; site programs avoid it",
     ]
     return res
 
@@ -318,11 +906,17 @@ def replay(path):
     if not prog or not a:
         return 0
     with dc.scratch_dir("rattr-c16-replay-") as base:
-        project = dc.Project(base.resolve() / "p", prog, layout=case.get("layout", "deep"))
+        if "site_items" in prog:
+            project = cs.SiteProject.from_description(base.resolve() / "p", prog)
+            print("fixed options:", project.argv_pre, " target argument:", project.target_arg)
+        else:
+            project = dc.Project(base.resolve() / "p", prog, layout=case.get("layout", "deep"))
         print("TARGET:\n" + project.target_path.read_text())
-        print("IMPORT (padding stripped):\n" + project.helper_path.read_text().lstrip("\n"))
+        print("IMPORT " + str(project.helper_path.relative_to(project.root)) + " (padding stripped):\n" + project.helper_path.read_text().lstrip("\n"))
+        if hasattr(project, "deeper_path"):
+            print("IMPORT " + str(project.deeper_path.relative_to(project.root)) + " (padding stripped):\n" + project.deeper_path.read_text().lstrip("\n"))
         for s in SETTINGS:
-            r = dc.run_cli(project, dc.argv_for(full_cfg(a, s), project.target_arg, "results"))
+            r = dc.run_cli(project, argv_of(project, full_cfg(a, s), "results"))
             print(skey(s), ("TRACEBACK " + crash_type(r)) if crashed(r) else "", "exit", r["exit"], "stdout", common.digest(r["stdout"]),
                   "stderr", [f"{l['level']}:{l['file']}:{l['line']}" for l in r["lines"]])
     return 0
